@@ -603,6 +603,41 @@ fn c01_histories(ctx: &Ctx, tier: Tier, seed: u64) {
             } else {
                 vec![Op::Setup(0), Op::Solve(n_it), Op::SetupMixed(0, 1), Op::Solve(n_it), Op::Solve(n_it)]
             };
+            // PRM, every third history: a query from a start state marginally inside an obstacle
+            // (refused), then a query whose goal is a tiny ball around that very state. Whatever
+            // the refused query left behind, no returned path may end in (or pass through) it.
+            if h.params.kind == PKind::Prm && i % 3 == 0 {
+                let mut p0 = crate::world::gen_problem(&mut r, &spec, Hostility::Plain);
+                p0.goal.radius *= 2.5;
+                let mut bad: Option<Vec<f64>> = None;
+                with_kit!(spec, K, kit => {
+                    if let Ok(ev) = WorldEval::<K>::new(&kit, &p0.world) {
+                        let cands: Vec<Vec<f64>> = (0..24).map(|_| crate::world::rand_state(&mut r, &spec)).collect();
+                        let inv = cands.iter().find(|c| !ev.valid(&kit.unflat(c), c));
+                        let val = cands.iter().find(|c| ev.valid(&kit.unflat(c), c));
+                        if let (Some(inv), Some(val)) = (inv, val) {
+                            let (mut lo, mut hi) = (kit.unflat(inv), kit.unflat(val));
+                            for _ in 0..(10 + r.below(30)) {
+                                let mut mid = lo.clone();
+                                ev.sp.interpolate(&lo, &hi, 0.5, &mut mid);
+                                let fm = K::flat(&mid);
+                                if ev.valid(&mid, &fm) { hi = mid } else { lo = mid }
+                            }
+                            bad = Some(K::flat(&lo));
+                        }
+                    }
+                });
+                if let Some(bad) = bad {
+                    let mut p1 = p0.clone();
+                    p1.start = bad.clone();
+                    p1.extra_starts.clear();
+                    let mut p2 = p0.clone();
+                    p2.goal = crate::world::GoalSpec { centre: bad, radius: 1e-6 * spec.diameter().max(1e-6), mode: crate::world::GoalMode::Centre, fail_at: None, window: None };
+                    h.problems = vec![p0, p1, p2];
+                    h.ops = vec![Op::Setup(0), Op::Construct, Op::Solve(10), Op::SetPd(1), Op::Solve(10), Op::SetPd(2), Op::Solve(10), Op::SetPd(0), Op::Solve(10)];
+                    b.count("prm_histories_with_refused_start_then_goal_around_it", 1);
+                }
+            }
             b.evaluations += 1;
             with_kit!(spec, K, kit => {
                 if let Ok((_, recs)) = run_history::<K>(&kit, &h, false, 3_000_000) {
